@@ -106,6 +106,11 @@ func ctxHeader(v string, tag int) (hdr string, decoded string, ok bool) {
 	return "", "", true
 }
 
+// initErrorBody is the error document the runtime of step i posts to /init/error.
+func initErrorBody(i int) []byte {
+	return []byte(fmt.Sprintf(`{"errorMessage":"init of step %d blew up","errorType":"Function.InitBoom","marker":"INIT-ERROR-BODY-%d"}`, i, i))
+}
+
 func body(h history) (func(), *stack.Config) {
 	cfg := &stack.Config{TimeoutSec: timeoutSec}
 	return func() {
@@ -128,6 +133,12 @@ func body(h history) (func(), *stack.Config) {
 						break
 					}
 					seenUp++
+				}
+				if up >= 0 && h[up].Kind == "initerror" {
+					// the runtime reports an initialisation error (with its own body) and dies before it ever polls
+					delivered++
+					rt.InitError("Function.InitBoom", initErrorBody(up))
+					rt.Exit(1)
 				}
 				if up >= 0 && h[up].Kind == "crash-delivery" {
 					rt.FailWriteAfter = 1000
@@ -233,6 +244,20 @@ func judge(h history) sched.Judge {
 				}
 				outs = append(outs, "refused500")
 				continue
+			}
+			if s.Kind == "initerror" {
+				// never delivered; the caller gets the runtime's own error document, untouched
+				if !bytes.Equal(inv.Body, initErrorBody(i)) {
+					failf("5", "caller-bytes:initerror", "invocation %d: the runtime reported %q to /init/error and exited; the caller got status %d body %q", i, initErrorBody(i), inv.Status, trunc(inv.Body))
+				}
+				outs = append(outs, "initerror")
+				continue
+			}
+			// nobody else's error document
+			for j, o := range h {
+				if o.Kind == "initerror" && j != i && bytes.Contains(inv.Body, []byte(fmt.Sprintf("INIT-ERROR-BODY-%d", j))) {
+					failf("5", "foreign-init-error-body", "invocation %d received the init error document that the runtime of invocation %d had posted", i, j)
+				}
 			}
 			if ni >= len(nexts) {
 				failf("1", "not-delivered", "invocation %d (%s) was never delivered to the runtime", i, s)
@@ -372,7 +397,9 @@ func init() {
 			// invocations that arrive while the environment initialises (deadline = arrival + timeout all the same)
 			step{"ok", "a", "a", "absent", 800}, step{"fnerror", "64k", "a", "json", 800}, step{"crash", "a", "a", "binary", 800},
 			// the runtime dies while a large event is being sent to it
-			step{"crash-delivery", "limit", "a", "absent", 0}, step{"crash-delivery", "64k", "a", "json", 0})
+			step{"crash-delivery", "limit", "a", "absent", 0}, step{"crash-delivery", "64k", "a", "json", 0},
+			// the runtime reports an init error and exits: its document goes to that caller and to nobody after it
+			step{"initerror", "a", "a", "absent", 0})
 		var out []hx.Scenario
 		for _, f := range firsts {
 			f := f
@@ -382,7 +409,11 @@ func init() {
 				res := &hx.ScenarioResult{Name: name, Exhaustive: true, Outcomes: map[string]int64{}}
 				k := 0
 				for si, ev := range shapes {
-					for _, kind2 := range []string{"ok", "fnerror"} {
+					kinds2 := []string{"ok", "fnerror"}
+					if f.Kind == "initerror" && si == 2 {
+						kinds2 = append(kinds2, "crash") // a later invocation that fails without posting anything
+					}
+					for _, kind2 := range kinds2 {
 						if kind2 == "fnerror" && si%2 == 1 {
 							continue
 						}
